@@ -6,7 +6,7 @@
 (* repeated with other minpks / hkl_tol), indexing.index,                  *)
 (* indexing.do_index, or a session on one indexer (readgvfile,             *)
 (* assigntorings / find / scorethem by hand, pair loops, and between them  *)
-(* saveindexing / fight_over_peaks / saveubis):                            *)
+(* saveindexing / fight_over_peaks / saveubis / reset):                    *)
 (*   id, NP, unum/uden (uniqueness threshold), maxgrains,                  *)
 (*   mode   "closest" (cosine_tol > 0) or "all" (cosine_tol < 0)           *)
 (*   passes[k] = [minpks]  the minimum REQUESTED for pass k (from the      *)
@@ -37,6 +37,10 @@
 (*            amb = peaks where two of those errors, or an error and the    *)
 (*            tolerance, are too close to order in floating point;          *)
 (*            ga, gas = indexer.ga / indexer.gas as observed afterwards     *)
+(*     [t |-> "reset", ga, nubis, nscores, nhits]   indexer.reset()         *)
+(*            returned (and, for an indexer built without g-vectors, the    *)
+(*            file was read again): ga = indexer.ga, the numbers of          *)
+(*            orientations, scores and hits held, as observed               *)
 (*   gaF[p] final grain assignment, nubisF final number of grains,         *)
 (*   scoresF final .scores                                                 *)
 (* The actions are those of Indexer.tla with the abstract functions bound  *)
@@ -52,7 +56,9 @@
 (* leaves every peak with the accepted grain that fits it best (the        *)
 (* earlier one on a tie; numbered from 0 as the code does), with none iff  *)
 (* no accepted grain indexes it, and gas = the peaks per grain             *)
-(* (Indexer.tla Save / SaveOK, ScoreAssign.tla BestGrain).                 *)
+(* (Indexer.tla Save / SaveOK, ScoreAssign.tla BestGrain), and that after  *)
+(* reset() no peak has a grain and nothing is held (Indexer.tla Reset /    *)
+(* ResetOK): the searches that follow are judged from that state.          *)
 (* One verdict per trace, naming the failing clause.                       *)
 (***************************************************************************)
 EXTENDS Integers, Sequences, FiniteSets, TLC, Json, IOUtils
@@ -175,6 +181,22 @@ Fight == /\ t <= Len(Trace) /\ e < Len(Rec.ev) /\ why = "ok" /\ Ev.t = "fight"
          /\ ga' = IF Len(Ev.ga) = Rec.NP THEN Ev.ga ELSE ga
          /\ UNCHANGED <<nub, hits, ng, inscore, pass, scores, call, tried>> /\ Consume
 
+\* ---- reset() (Indexer.tla Reset / ResetOK) ------------------------------------------------------
+\* the object is as the constructor left it: no peak has a grain, no orientation / score / hit is held; the specification's
+\* state goes there whatever was observed, so a search that still sees the old assignments is rejected at its next find
+ResetWhy(r, v) ==
+  IF CallDoneWhy # "ok" THEN CallDoneWhy
+  ELSE IF Len(v.ga) # r.NP THEN "reset left a grain assignment of the wrong length"
+  ELSE IF \E p \in 1..r.NP : v.ga[p] # -1 THEN "reset left peaks assigned to a grain"
+  ELSE IF v.nubis # 0 \/ v.nscores # 0 THEN "reset left orientations or scores behind"
+  ELSE IF v.nhits # 0 THEN "reset left a hit list behind"
+  ELSE "ok"
+ResetEv == /\ t <= Len(Trace) /\ e < Len(Rec.ev) /\ why = "ok" /\ Ev.t = "reset"
+           /\ why' = ResetWhy(Rec, Ev)
+           /\ ga' = [p \in 1..Rec.NP |-> -1] /\ nub' = 0 /\ scores' = <<>> /\ hits' = <<>> /\ ng' = 0 /\ inscore' = FALSE
+           /\ call' = NoCall /\ tried' = {}
+           /\ UNCHANGED pass /\ Consume
+
 \* ---- end of scorethem -------------------------------------------------------------------------
 End == /\ t <= Len(Trace) /\ e < Len(Rec.ev) /\ why = "ok" /\ Ev.t = "end"
        /\ why' = IF Len(hits) > 0 /\ ng < Rec.maxgrains THEN "scorethem returned with hits left and fewer than max_grains grains"
@@ -197,6 +219,6 @@ Finish == /\ t <= Len(Trace) /\ (e = Len(Rec.ev) \/ why # "ok")
              ELSE /\ ga' = <<>> /\ nub' = 0 /\ hits' = <<>> /\ ng' = 0 /\ inscore' = FALSE
                   /\ pass' = 1 /\ scores' = <<>> /\ call' = NoCall /\ tried' = {}
 
-Next == Find \/ Pop \/ End \/ Fight \/ PassEv \/ SapEv \/ Finish
+Next == Find \/ Pop \/ End \/ Fight \/ ResetEv \/ PassEv \/ SapEv \/ Finish
 Spec == Init /\ [][Next]_vars
 =============================================================================
